@@ -124,3 +124,43 @@ Fixpoint agrees (d : interp) (env : ident -> Z) (p : prop) : Prop :=
   | Node _ i _ lo hi _ _ ch => fst (dbounds d i lo hi) <> snd (dbounds d i lo hi) /\
       (fix go l := match l with [] => True | x :: xs => agrees d env x /\ go xs end) ch
   end.
+
+(* ---------- C01 / C02: column assignments of the polyhedron ---------- *)
+(* x assigns a value to every column id (leaves and compounds).  inb: every column value within
+   its declared bounds at every occurrence; compounds are not pre-fixed (own bounds (0,1)) and
+   signs are +-1.  consistent: every compound column carries the evaluated truth value. *)
+Fixpoint inb (x : ident -> Z) (p : prop) : Prop :=
+  match p with
+  | Var i lo hi => lo <= x i <= hi
+  | Node _ i _ lo hi s _ ch => lo = 0 /\ hi = 1 /\ 0 <= x i <= 1 /\ (s = 1 \/ s = -1) /\
+      (fix go l := match l with [] => True | c :: cs => inb x c /\ go cs end) ch
+  end.
+Fixpoint consistent (x : ident -> Z) (p : prop) : Prop :=
+  match p with
+  | Var _ _ _ => True
+  | Node _ i _ _ _ _ _ ch => x i = eval x p /\
+      (fix go l := match l with [] => True | c :: cs => consistent x c /\ go cs end) ch
+  end.
+Definition lhs (x : ident -> Z) (cs : list (ident * Z)) := zsum (map (fun c => snd c * x (fst c)) cs).
+Definition sat (x : ident -> Z) (r : row) := fst r <= lhs x (snd r).
+
+(* the leaf assignment env extended with each sub-proposition's evaluated truth value *)
+Definition is_comp_with (i : ident) (n : prop) : bool := negb (is_var n) && String.eqb (id_of n) i.
+Definition extend (env : ident -> Z) (m : prop) : ident -> Z :=
+  fun i => match find (is_comp_with i) (nodes m) with Some n => eval env n | None => env i end.
+(* leaf ids are disjoint from compound ids (no by-id references to sub-propositions) *)
+Definition leaves_apart (m : prop) : Prop :=
+  forall a b, In a (nodes m) -> In b (nodes m) -> is_var a = true -> is_var b = false -> id_of a <> id_of b.
+(* leaf values within bounds; compounds not pre-fixed; signs +-1 *)
+Fixpoint plain_inb (env : ident -> Z) (p : prop) : Prop :=
+  match p with
+  | Var i lo hi => lo <= env i <= hi
+  | Node _ i _ lo hi s _ ch => lo = 0 /\ hi = 1 /\ (s = 1 \/ s = -1) /\
+      (fix go l := match l with [] => True | c :: cs => plain_inb env c /\ go cs end) ch
+  end.
+
+(* dense matrix rows as produced by to_ge_polyhedron: b first, then one coefficient per column *)
+Fixpoint dot (a v : list Z) : Z :=
+  match a, v with x :: xs, y :: ys => x * y + dot xs ys | _, _ => 0 end.
+Definition sat_dense (v : list Z) (r : list Z) : Prop :=
+  match r with [] => True | b :: a => b <= dot a v end.
